@@ -24,7 +24,8 @@ import (
 // job "rpc": goType = service key of the client ("file/Svc"), sname = "<defining service key>_<method>"
 // (prefix of the synthetic <…>_args / <…>_result structs), payload =
 //   <transport>,<protocol>|<args struct value>|<handler outcome>
-// handler outcome: v<value> (returned value; `v` alone for void/oneway) | x<id>=<exception value> |
+// handler outcome: v<value> (returned value; `v` alone for void/oneway, and for a struct-returning method
+//                  = the nil pointer result) | x<id>=<exception value> |
 //                  e (plain error) | a<type> (TApplicationException of that type)
 // output: calls=<n> args=<dump> result=<ok <dump> | void | exc <id> <dump> | app <type> | err:<class>>
 
@@ -219,8 +220,16 @@ func runRPC(d *Defs, svcKey, methodKey, payload string) string {
 				if res.Error() != nil {
 					e = "B"
 				}
+				// C16 value dimension: the dynamic type of the result is the declared return type of the
+				// proxied function (a nil *T is still a *T), at every layer
+				seen := resTxt
+				if method.Type != nil && method.Type.NumOut() == 2 && len(res) == 2 {
+					if decl := method.Type.Out(0); decl.Kind() != reflect.Interface && reflect.TypeOf(res[0]) != decl {
+						seen += fmt.Sprintf("!type=%T,declared=%s", res[0], decl)
+					}
+				}
 				trMu.Lock()
-				*tr = append(*tr, fmt.Sprintf("x%d:%s/%s", label, resTxt, e))
+				*tr = append(*tr, fmt.Sprintf("x%d:%s/%s", label, seen, e))
 				trMu.Unlock()
 				return res
 			}
